@@ -148,6 +148,12 @@ pub struct Inner {
     low_prio: u32,
     pub max_live: usize,
     pub site_hits: Vec<(u32, u64)>,
+    /// simulated clock = steps + clock_offset (ticks); the offset grows when
+    /// every live thread is blocked and one of them waits for a deadline
+    pub clock_offset: u64,
+    pub deadline: [Option<u64>; MAX_THREADS],
+    pub clock_jumps: u64,
+    pub timeouts_fired: u64,
 }
 
 fn cold(_: u32) -> bool {
@@ -197,6 +203,10 @@ impl Inner {
             low_prio: 99,
             max_live: 0,
             site_hits: Vec::new(),
+            clock_offset: 0,
+            deadline: [None; MAX_THREADS],
+            clock_jumps: 0,
+            timeouts_fired: 0,
         }
     }
 
@@ -220,6 +230,10 @@ impl Inner {
             self.tail.pop_front();
         }
         self.tail.push_back(e);
+    }
+
+    pub fn now(&self) -> u64 {
+        self.steps + self.clock_offset
     }
 
     fn progress(&mut self) {
@@ -558,6 +572,26 @@ fn no_candidates(
     // Every live thread has seen its condition false since the last progress
     // event. Run confirmation rounds: everybody looks again.
     let i = g.as_mut().unwrap();
+    // discrete-event time: nobody can run, but somebody waits for a deadline
+    let now = i.now();
+    let mut earliest: Option<u64> = None;
+    for t in 0..i.nthreads {
+        if i.st[t] == St::Blocked {
+            if let Some(d) = i.deadline[t] {
+                if d > now && earliest.map(|e| d < e).unwrap_or(true) {
+                    earliest = Some(d);
+                }
+            }
+        }
+    }
+    if let Some(d) = earliest {
+        i.clock_offset += d - now;
+        i.clock_jumps += 1;
+        i.event(me, crate::sites::H_CLOCK_JUMP, 4, d);
+        i.progress();
+        i.stalled[me] = true;
+        return g;
+    }
     i.confirm_rounds += 1;
     if i.confirm_rounds > CONFIRM_ROUNDS {
         let d = describe_threads(i);
@@ -627,6 +661,52 @@ pub fn wait_until(site: u32, cond: &mut dyn FnMut() -> bool) {
             }
         }
     }
+}
+
+/// Current simulated time in ticks.
+pub fn now() -> u64 {
+    let g = lock();
+    g.as_ref().map(|i| i.now()).unwrap_or(0)
+}
+
+/// Block until `cond()` is true or `ticks` of simulated time have passed.
+/// Returns true when the condition held, false on a timeout.
+pub fn timed_wait(site: u32, cond: &mut dyn FnMut() -> bool, ticks: u64) -> bool {
+    let me = match current() {
+        Some(t) => t,
+        None => return cond(),
+    };
+    let deadline = {
+        let mut g = lock();
+        match g.as_mut() {
+            Some(i) if i.active => {
+                let d = i.now().saturating_add(ticks);
+                i.deadline[me] = Some(d);
+                d
+            }
+            _ => return cond(),
+        }
+    };
+    let mut timed_out = false;
+    wait_until(site, &mut || {
+        if cond() {
+            return true;
+        }
+        if now() >= deadline {
+            timed_out = true;
+            return true;
+        }
+        false
+    });
+    let mut g = lock();
+    if let Some(i) = g.as_mut() {
+        i.deadline[me] = None;
+        if timed_out {
+            i.timeouts_fired += 1;
+            i.event(me, site, 4, 1);
+        }
+    }
+    !timed_out
 }
 
 /// One iteration of a spin loop whose condition was just observed false.
